@@ -39,7 +39,7 @@ RULE = (
     "processes / repo Server behind its queue / holder of a repo Resource, each with an identical-traffic twin; an "
     "optional 2-3 node Network plus twin Network (links added per direction or with add_bidirectional_link, plain or from "
     "the condition factories, unique or shared display names) with a tagged probe on every link every delta) and a generated repo "
-    "FaultSchedule of CrashNode/PauseNode/NetworkPartition(sym/asym)/InjectLatency/InjectPacketLoss/ReduceCapacity "
+    "FaultSchedule of CrashNode/PauseNode (on probe targets and on Network nodes)/NetworkPartition(sym/asym)/RandomPartition/InjectLatency/InjectPacketLoss/ReduceCapacity "
     "faults (0-10; windows disjoint, overlapping, nested, identical, adjacent, past the horizon, permanent crash; handles "
     "cancelled before construction / after construction / during the run / never) passed to Simulation(fault_schedule=); "
     "scenario classes: fault-free, general (none of the still-recorded triggers possible), only:<trigger> (exactly one of "
@@ -93,6 +93,10 @@ EXPECTED_PROBES = [
     "fault.crash", "fault.restart", "fault.pause", "fault.resume", "fault.partition.activate",
     "fault.partition.deactivate", "fault.latency.activate", "fault.latency.deactivate", "fault.loss.activate",
     "fault.loss.deactivate", "fault.capacity.reduce", "fault.capacity.restore",
+    "fault.random_partition.fault", "fault.random_partition.heal", "probe.random_partition_cut_observed",
+    "probe.random_cycle_started_inside_scheduled_partition_window",
+    "probe.message_sent_while_destination_down_handled_after_restart", "probe.message_dropped_by_down_destination",
+    "probe.boundary_exact.message_arrives_at_restart_instant",
     "probe.overlap.partial", "probe.overlap.nested", "probe.overlap.identical", "probe.overlap.adjacent",
     "probe.queue_backlog_at_down_start", "probe.job_dropped_in_down_window",
     "probe.job_after_window_end", "probe.probe_dropped_by_partition", "probe.probe_dropped_by_loss",
@@ -223,7 +227,7 @@ def gen(rng, tier):
     # ---- network
     net = None
     if rng.random() < 0.75:
-        nn = rng.choice((2, 3, 3))
+        nn = rng.choice((2, 3, 3, 4))
         bidir = rng.random() < 0.45      # built with Network.add_bidirectional_link (reverse = shallow copy)
 
         def params():
@@ -257,7 +261,8 @@ def gen(rng, tier):
     if node_targets:
         kinds_avail += ["crash", "pause", "crash", "pause"]
     if net is not None:
-        kinds_avail += ["partition", "latency", "loss"]
+        # "ncrash"/"npause": CrashNode/PauseNode on a node of the Network (messages in flight across the edges)
+        kinds_avail += ["partition", "latency", "loss", "ncrash", "npause"]
     if holders:
         kinds_avail += ["capacity", "capacity"]
     only = klass[5:] if klass.startswith("only:") else None
@@ -277,11 +282,18 @@ def gen(rng, tier):
             # direction of the same pair (links must not share fault state)
             pair = faults[-1]
             k = pair["kind"]
+        netnode = None
+        if k in ("ncrash", "npause"):
+            netnode = rng.randrange(net["n"])
+            k = k[1:]
         f = {"kind": k}
         allow_overlap = k != "capacity" or "capoverlap" in allow
-        if k in ("crash", "pause"):
+        if netnode is not None or (k in ("crash", "pause") and not node_targets):
+            f["netnode"] = netnode if netnode is not None else rng.randrange(net["n"])
+            g = ("nnode", f["netnode"])
+        elif k in ("crash", "pause"):
             pref = [i for i in node_targets if nodes[i]["kind"] == "server"] if only == "server" else \
-                [x["node"] for x in faults if x["kind"] in ("crash", "pause")]
+                [x["node"] for x in faults if x["kind"] in ("crash", "pause") and "node" in x]
             f["node"] = rng.choice(pref if pref and rng.random() < (0.8 if only == "server" else 0.5) else node_targets)
             g = ("node", f["node"])
         elif k == "capacity":
@@ -334,14 +346,31 @@ def gen(rng, tier):
             if f["cancel"] == "mid":
                 f["cancel_ms"] = rng.randint(0, f["start_ms"] - 1)
         faults.append(f)
+    if net is not None and net["n"] >= 3 and klass != "fault-free" and rng.random() < 0.3:
+        # Jepsen-style RandomPartition over a strict subset of the nodes, together with a long scheduled
+        # NetworkPartition on the same network: random cycles start while the scheduled window is open
+        ids = list(range(net["n"]))
+        rng.shuffle(ids)
+        inside = sorted(ids[:rng.randint(2, net["n"] - 1)])
+        faults.append({"kind": "randpart", "nodes": inside, "mtbf_ms": rng.choice((200, 600, 1500, 4000)),
+                       "mttr_ms": rng.choice((100, 400, 1500)), "rseed": rng.getrandbits(30), "named": rng.random() < 0.5,
+                       "cancel": rng.choice(("never", "never", "never", "never", "pre", "post"))})
+        if rng.random() < 0.75:
+            out = [x for x in ids if x not in inside]
+            a = [rng.choice(out)]
+            b = [rng.choice([x for x in ids if x != a[0]])]
+            s0 = rng.randint(100, max(101, end_ms // 3))
+            faults.append({"kind": "partition", "a": a, "b": b, "asym": rng.random() < 0.3, "named": rng.random() < 0.5,
+                           "start_ms": s0, "end_ms": rng.randint(max(s0 + 50, 2 * end_ms // 3), end_ms - 50),
+                           "cancel": "never"})
     if "capbusy" not in allow:
         # a crashed holder's process dies holding its grant (documented crash semantics): that is "grants held at a
         # capacity-window start" by another route, so a holder gets node faults or capacity faults, not both
         for i in holders:
             if any(f["kind"] == "capacity" and f["node"] == i for f in faults) and \
-                    any(f["kind"] in ("crash", "pause") and f["node"] == i for f in faults):
+                    any(f["kind"] in ("crash", "pause") and f.get("node") == i for f in faults):
                 drop = ("capacity",) if rng.random() < 0.5 else ("crash", "pause")
-                faults[:] = [f for f in faults if not (f["kind"] in drop and f["node"] == i)]
+                faults[:] = [f for f in faults if not (f["kind"] in drop and f.get("node") == i)]
     sc["faults"] = faults
 
     # ---- holder parameters depend on the capacity faults (amounts never exceed the smallest reduced capacity)
